@@ -696,4 +696,41 @@ theorem viewOf_ge_essential (created : Int) (evs : List Ev) (t c : Int)
   subst het
   exact (viewOf_ge_essentialEvs created evs t e he).1 ht
 
+/-! ### settled histories (finding C10-F3): events that change nothing and leave nothing pending do not move the view -/
+
+theorem viewStep_settled (t : Int) (acc : Int) (n : Nat) (e : Ev) (he : e.ess = n) (hl : e.lastHandled = some n) :
+    viewStep t (acc, some n) e = (acc, some n) := by
+  unfold viewStep resetsIdle resetCond stamp
+  simp [he, hl]
+
+theorem viewFold_settled (t : Int) (n : Nat) (es : List Ev) (h : ∀ e ∈ es, e.ess = n ∧ e.lastHandled = some n) :
+    ∀ acc : Int, es.foldl (viewStep t) (acc, some n) = (acc, some n) := by
+  induction es with
+  | nil => intro acc; rfl
+  | cons e es ih =>
+    intro acc
+    have he := h e (List.mem_cons_self ..)
+    rw [List.foldl_cons, viewStep_settled t acc n e he.1 he.2]
+    exact ih (fun x hx => h x (List.mem_cons_of_mem _ hx)) acc
+
+/-- with nothing but settled events after the first one, the view is the one of the first event alone -/
+theorem viewOf_settled (created : Int) (e0 : Ev) (es : List Ev) (h : Settled e0 es) (t : Int) :
+    viewOf created (e0 :: es) t = viewOf created [e0] t := by
+  unfold viewOf
+  rw [List.foldl_cons]
+  have hs : viewStep t (created, none) e0 = ((viewStep t (created, none) e0).1, some e0.ess) := rfl
+  rw [hs, viewFold_settled t e0.ess es h]
+  simp [List.foldl]
+
+/-- the view of a single resetting event, read after both of its stamps -/
+theorem viewOf_single (created : Int) (e0 : Ev) (t : Int) (hr : resetsIdle e0.lastHandled none e0.ess = true)
+    (h1 : created ≤ e0.recv) (h2 : e0.recv ≤ e0.t) (h3 : e0.t ≤ t) : viewOf created [e0] t = e0.t := by
+  unfold viewOf
+  simp only [List.foldl, viewStep, hr, stamp]
+  have a1 : decide (e0.recv ≤ t) = true := by simp; omega
+  have a2 : decide (created ≤ e0.recv) = true := by simp; omega
+  have a3 : decide (e0.t ≤ t) = true := by simp; omega
+  have a4 : decide (e0.recv ≤ e0.t) = true := by simp; omega
+  simp [a1, a2, a3, a4]
+
 end Kopf.C10
